@@ -130,3 +130,70 @@ from . import c18 as _c18  # noqa: E402
 
 aiomix.install(globals(), 0.25, lambda rng: aiomix.stream(rng, _c18.scenarios), aiomix.c06_specs,
                note="C18-style histories (limits 50%, raising runs, deletions, coroutines using their scheduler); Spec: attempts and invocations <= max_attempts, exhausted => unregistered, registered => attempts remain, never back")
+
+
+# ---- overlapping exec_jobs callers (threading): the budget also holds when several threads poll at once
+from . import c14 as _c14  # noqa: E402
+
+_seq = {k: globals()[k] for k in ("scenarios", "runner", "specs", "classes", "nontrivial")}
+_seq_project, _seq_direct = globals().get("project"), globals().get("direct_specs")
+
+
+def _conc_scenario(rng):
+    scn = _c14.gen_scenario(rng, {"p_exec_heavy": 1.0})
+    for j in scn["jobs"]:
+        if j["call"] == 0 and rng.random() < 0.6:
+            j["max_att"] = rng.choice([1, 1, 2])
+    scn["kind"] = "conc"
+    return scn
+
+
+def scenarios(rng, n, tier):  # noqa: F811
+    for scn in _seq["scenarios"](rng, n, tier):
+        yield _conc_scenario(rng) if rng.random() < 0.08 else scn
+
+
+def runner(scn):  # noqa: F811
+    return _c14.runner(scn) if scn.get("kind") == "conc" else _seq["runner"](scn)
+
+
+def specs(r):  # noqa: F811
+    if r["scn"].get("kind") != "conc":
+        return _seq["specs"](r)
+    out = r["obs"][0]
+    qs = []
+    if out.get("deadlock") or out.get("error"):
+        qs.append(("spec eq 0 1", {"what": "overlapping callers: deadlock or a thread died", "detail": out.get("deadlock") or out.get("error")}))
+        return qs
+    ninv = {}
+    for (k, _e, _t) in out["invocations"]:
+        ninv[k] = ninv.get(k, 0) + 1
+    for k, v in (out.get("jobs") or {}).items():
+        if v[3] > 0:
+            qs.append((f"spec le {v[0]} {v[3]}", {"what": "overlapping callers: attempts <= max_attempts", "key": k}))
+            qs.append((f"spec le {ninv.get(k, 0)} {v[3]}", {"what": "overlapping callers: invocations <= max_attempts", "key": k, "invocations": ninv.get(k, 0)}))
+            if v[0] >= v[3]:
+                qs.append((f"spec eq {1 if k in (out['final'] or []) else 0} 0", {"what": "overlapping callers: exhausted job still registered", "key": k}))
+    return qs
+
+
+def project(line):  # noqa: F811
+    return _seq_project(line) if _seq_project else line
+
+
+def direct_specs(r):  # noqa: F811
+    return [] if r["scn"].get("kind") == "conc" or _seq_direct is None else _seq_direct(r)
+
+
+def classes(r):  # noqa: F811
+    return ["kind:overlapping-callers"] if r["scn"].get("kind") == "conc" else _seq["classes"](r)
+
+
+def nontrivial(r):  # noqa: F811
+    if r["scn"].get("kind") == "conc":
+        return len(r["obs"][0].get("invocations", [])) > 0
+    return _seq["nontrivial"](r)
+
+
+RULE += ("; 8% of the scenarios are overlapping exec_jobs callers (2-3 controlled threads on 1-2 never-run jobs with limits, thread "
+         "switches at every source line of the execution path): attempts and invocations stay within max_attempts, exhausted jobs are gone")
